@@ -31,6 +31,7 @@ import (
 	"log/syslog"
 	"os"
 	"runtime"
+	"sort"
 	"strings"
 
 	"github.com/danos/utils/tsort"
@@ -636,8 +637,17 @@ func (c *Compiler) ExpandModules() (err error) {
 	for _, module := range c.modules {
 		r := module.GetModule()
 		c.VerifyModuleIncludes(r, module.GetSubmodules())
-		for _, s := range module.GetSubmodules() {
-			c.ProcessSubmoduleIncludes(s, module.GetSubmodules())
+		// Submodules are processed in name order: what one submodule
+		// inherits from those it includes must not depend on the
+		// iteration order of the map.
+		submodules := module.GetSubmodules()
+		names := make([]string, 0, len(submodules))
+		for name := range submodules {
+			names = append(names, name)
+		}
+		sort.Strings(names)
+		for _, name := range names {
+			c.ProcessSubmoduleIncludes(submodules[name], submodules)
 		}
 		c.ProcessModuleIncludes(r, module.GetSubmodules())
 	}
